@@ -332,12 +332,23 @@ type vC14Case struct {
 	limit  int64
 	extra  int
 	wire   []byte
+	pat    []bool // pattern session: pat[i] = abandon the i-th message (NextReader, then NextReader again)
+	isPat  bool
 }
 
 func vC14Decode(c vSx) (vC14Case, bool) {
 	var k vC14Case
-	if !c.isList() || len(c.l) != 5 || !c.l[4].isBytes() {
+	if !c.isList() || (len(c.l) != 5 && len(c.l) != 6) || !c.l[4].isBytes() {
 		return k, false
+	}
+	if len(c.l) == 6 {
+		if !c.l[5].isList() {
+			return k, false
+		}
+		k.isPat = true
+		for _, x := range c.l[5].l {
+			k.pat = append(k.pat, x.isInt() && x.i64() == 1)
+		}
 	}
 	k.fixed = c.l[0].int()
 	k.server = c.l[1].int() == 1
@@ -387,6 +398,7 @@ type vC14Run struct {
 	wpay    [][]byte
 	wbad    string
 	panicked bool
+	abandoned []bool
 }
 
 func vC14Exec(k vC14Case) (run vC14Run) {
@@ -402,7 +414,35 @@ func vC14Exec(k vC14Case) (run vC14Run) {
 	c.SetReadLimit(k.limit)
 	var results []vSx
 	extra := -1
-	for {
+	if k.isPat {
+		for i := 0; ; i++ {
+			abandon := i < len(k.pat) && k.pat[i]
+			var mt int
+			var p []byte
+			var err error
+			if abandon {
+				mt, _, err = c.NextReader()
+			} else {
+				mt, p, err = c.ReadMessage()
+			}
+			if err != nil {
+				results = append(results, vC14ErrSx(err))
+				run.errs = append(run.errs, err)
+				break
+			}
+			if abandon {
+				results = append(results, vL(vZ(3), vI(mt)))
+				run.msgs = append(run.msgs, nil)
+			} else {
+				results = append(results, vL(vZ(0), vI(mt), vB(p)))
+				run.msgs = append(run.msgs, p)
+			}
+			run.mtypes = append(run.mtypes, mt)
+			run.abandoned = append(run.abandoned, abandon)
+		}
+		extra = 0
+	}
+	for !k.isPat {
 		mt, p, err := c.ReadMessage()
 		if err != nil {
 			results = append(results, vC14ErrSx(err))
@@ -496,6 +536,24 @@ func vC14Judge(k vC14Case, run vC14Run, v vC14Verdict) (string, string) {
 			want = append(want, e)
 		}
 	}
+	if k.isPat {
+		// readers handed out = the RFC receiver's messages, plus possibly one abandoned message that
+		// had started but never completed
+		n := len(run.msgs)
+		if n == len(want)+1 && run.abandoned[n-1] {
+			n--
+		}
+		if n != len(want) {
+			return "delivered-messages", fmt.Sprintf("%d readers returned, RFC receiver delivers %d messages", len(run.msgs), len(want))
+		}
+		for i := 0; i < n; i++ {
+			if run.mtypes[i] != want[i].op || (!run.abandoned[i] && !bytes.Equal(run.msgs[i], want[i].payload)) {
+				return "delivered-messages", fmt.Sprintf("message %d differs (type %d, RFC type %d)", i, run.mtypes[i], want[i].op)
+			}
+		}
+		want = nil
+		run.msgs, run.mtypes = nil, nil
+	}
 	if len(run.msgs) != len(want) {
 		return "delivered-messages", fmt.Sprintf("delivered %d messages, RFC receiver %d", len(run.msgs), len(want))
 	}
@@ -568,7 +626,8 @@ func vC14Judge(k vC14Case, run vC14Run, v vC14Verdict) (string, string) {
 			}
 			break
 		}
-		if err != errUnexpectedEOF {
+		if err != errUnexpectedEOF && !(k.isPat && err == io.EOF) {
+			// (io.EOF: the stream ended while the rest of an abandoned frame was being skipped)
 			return "cut-is-error", fmt.Sprintf("stream cut: expected unexpected-EOF error, got %v", err)
 		}
 		if closeCode != -2 {
@@ -582,6 +641,12 @@ func vC14Judge(k vC14Case, run vC14Run, v vC14Verdict) (string, string) {
 			return "close-1002", fmt.Sprintf("protocol error %q but close code written %d", err, closeCode)
 		}
 	case vC14OTooBig:
+		if k.isPat && (err == io.EOF || err == errUnexpectedEOF) && closeCode == -2 {
+			// no limit is configured in these sessions, so "too big" can only be the 2^63 bound on the
+			// accumulated length; NextReader restarts that count when a message is abandoned, so the rest of
+			// an abandoned message may be skipped instead (and the stream then ends): nothing is delivered
+			break
+		}
 		if err != ErrReadLimit {
 			return "read-limit", fmt.Sprintf("message over the limit but read returned %v", err)
 		}
@@ -986,6 +1051,17 @@ func vC14Fixed() int64 {
 	return 1
 }
 
+// a session (no limit) in which the application abandons some of the messages
+func vC14GenPattern(r *vRng) vSx {
+	c := vC14GenSession(r)
+	n := r.rng(1, 5)
+	pat := make([]vSx, n)
+	for i := range pat {
+		pat[i] = vBool(r.chance(1, 2))
+	}
+	return vL(c.l[0], c.l[1], vZ(0), vZ(0), c.l[4], vLs(pat))
+}
+
 // ---------------------------------------------------------------- test entry
 func TestVerifC14(t *testing.T) {
 	k := vNewKit(t, "C14")
@@ -1067,6 +1143,12 @@ func TestVerifC14(t *testing.T) {
 		} else {
 			runOne(vC14GenSession(k.rnd))
 		}
+	}
+	// 2b. sessions with abandoned messages (NextReader without reading), no limit
+	np := k.N(1500, 15000)
+	for i := 0; i < np; i++ {
+		k.count("kind", "abandon-pattern")
+		runOne(vC14GenPattern(k.rnd))
 	}
 	// 3. every cut offset of small sessions
 	ncut := k.N(40, 250)
